@@ -1,11 +1,12 @@
-(* Percolator/Props.v — properties C02, C03, C04: the theorems, nothing else.
+(* Percolator/Props.v — properties C02, C03, C04: the theorems (each closed by [exact] + Print Assumptions) and their
+   non-vacuity Examples, nothing else. Proof scripts: PropsProofs.v and the files it exports; example traces: ExData.v.
    Model: System.v (acceptor over the event vocabulary of docs/PERC_EVENTS.md); a trace is any list of
    events; [run evs = Some s] = the acceptor accepts it. Loss = a send without deliver / a deliver
    without reply; duplication, delay, reordering = delivers in any number and order (the commit-point
    request: at most one delivery per send); crash = [ECrash]. [hasm s T] = T's mutations were logged,
    [classic s T] = T never used async commit / 1PC (then no resolve of T can be derived from the
    CheckSecondaryLocks fold: Inv.classic_flags). [F s T FTold] = 1 / 2 / 3 for Commit returning nil / undetermined / error. *)
-From Verif Require Import Percolator.Mixed2 Percolator.Trace Percolator.ProofsTrace Percolator.AddKeys Percolator.Heartbeat.
+From Verif Require Import Percolator.PropsProofs Percolator.ExData.
 From Coq Require Import Sorting.Sorted Permutation.
 
 (* ---------------- C02: crash atomicity (classic 2PC, optimistic and pessimistic prewrite) ---------------- *)
@@ -23,17 +24,10 @@ Theorem C02_atomic : forall evs s T, run evs = Some s -> hasm s T -> classic s T
   (* (iv) told a definite failure => no key is committed, now or in any accepted extension *)
   (F s T FTold = 3 -> forall evs' s', run_from s evs' = Some s' ->
      F s' T FTold = 3 /\ forall k c, kget s' T k <> Committed c).
-Proof.
-  intros evs s T R Hm Hc. split; [| split; [| split; [| split]]].
-  - exact (atomic_one_ts evs s T R Hm Hc).
-  - exact (atomic_all_or_nothing evs s T R Hm Hc).
-  - exact (committed_keys evs s T R Hm Hc).
-  - intros Ht. destruct (told_ok_committed evs s T R Hm Hc Ht) as [c [A [_ B]]]. eauto.
-  - exact (told_err_never evs s T R Hm Hc).
-Qed.
+Proof. exact C02_atomic_proof. Qed.
 Print Assumptions C02_atomic.
 
-(* the invariant behind it (J1-J6 of DESIGN Appendix B) holds after every accepted trace *)
+(* the invariant behind it (J1-J6 of docs/DESIGN_ROUND1.md, Appendix B; the rules are those of docs/PERC_EVENTS.md) holds after every accepted trace *)
 Theorem C02_invariant : Inv System.init /\ (forall s e s', Inv s -> step s e = Some s' -> Inv s') /\
                         (forall evs s, run evs = Some s -> Inv s).
 Proof. exact (conj inv_init (conj inv_step inv_run)). Qed.
@@ -50,14 +44,7 @@ Theorem C02_atomic_onepc : forall evs s T, run evs = Some s -> onepcm s T ->
      forall evs' s', run_from s evs' = Some s' -> forall k, In k (call s T) -> kget s' T k = Committed c) /\
   (F s T FTold = 3 -> forall evs' s', run_from s evs' = Some s' ->
      F s' T FTold = 3 /\ forall k c, kget s' T k <> Committed c).
-Proof.
-  intros evs s T R Hm. split; [| split; [| split; [| split]]].
-  - exact (onepc_one_ts evs s T R Hm).
-  - exact (onepc_all_or_nothing evs s T R Hm).
-  - exact (onepc_all_committed evs s T R Hm).
-  - exact (onepc_told_ok evs s T R Hm).
-  - exact (onepc_told_err evs s T R Hm).
-Qed.
+Proof. exact C02_atomic_onepc_proof. Qed.
 Print Assumptions C02_atomic_onepc.
 
 (* ---- async commit that has not fallen back: [asyncm s T] = mutations logged, every prewrite request asked
@@ -83,36 +70,16 @@ Theorem C02_atomic_async : forall evs s T, run evs = Some s -> asyncm s T ->
      (forall r C ks, In (ERsSend r T C ks) (s_sent s) -> C = cstar s T /\ C <> 0)) /\
   (* (iv) told a definite failure => nothing committed, every resolver decision is a rollback *)
   (F s T FTold = 3 -> (forall k c, kget s T k <> Committed c) /\ (forall r C ks, In (ERsSend r T C ks) (s_sent s) -> C = 0)).
-Proof.
-  intros evs s T R Am. split; [| split; [| split; [| split; [| split]]]].
-  - exact (async_commit_ts evs s T R Am).
-  - exact (async_all_or_nothing evs s T R Am).
-  - exact (async_owner_commit evs s T R Am).
-  - exact (async_resolver_decision evs s T R Am).
-  - exact (async_told_ok evs s T R Am).
-  - exact (async_told_err evs s T R Am).
-Qed.
+Proof. exact C02_atomic_async_proof. Qed.
 Print Assumptions C02_atomic_async.
 
-Lemma run_from_app : forall a s b s1 s2, run_from s a = Some s1 -> run_from s1 b = Some s2 -> run_from s (a ++ b) = Some s2.
-Proof.
-  induction a as [| e a IH]; intros s b s1 s2 H1 H2; cbn [run_from app] in *.
-  - inversion H1. subst. auto.
-  - destruct (step s e) as [s0 |]; try discriminate. eapply IH; eauto.
-Qed.
+
 
 Theorem C02_atomic_async_extension : forall evs s T evs' s', run evs = Some s -> run_from s evs' = Some s' -> asyncm s' T ->
   (F s T FTold = 1 -> F s' T FTold = 1 /\ Sealed s' T /\
      (forall k, In k (lm s' T) -> (exists m, kget s' T k = Locked m /\ m <= cstar s' T) \/ kget s' T k = Committed (cstar s' T))) /\
   (F s T FTold = 3 -> F s' T FTold = 3 /\ forall k c, kget s' T k <> Committed c).
-Proof.
-  intros evs s T evs' s' R R' Am'. assert (R2 : run (evs ++ evs') = Some s') by (eapply run_from_app; eauto).
-  destruct (run_from_frozen _ _ _ T R') as [Fz _]. split; intros Ht.
-  - destruct Fz as [E _]; [rewrite Ht; discriminate |]. assert (Ht' : F s' T FTold = 1) by congruence. split; auto.
-    destruct (async_told_ok _ _ _ R2 Am' Ht') as [A [B _]]. auto.
-  - destruct Fz as [E _]; [rewrite Ht; discriminate |]. assert (Ht' : F s' T FTold = 3) by congruence. split; auto.
-    apply (async_told_err _ _ _ R2 Am' Ht').
-Qed.
+Proof. exact C02_atomic_async_extension_proof. Qed.
 Print Assumptions C02_atomic_async_extension.
 
 (* what is NOT covered by C02_atomic / _onepc / _async / _fallback: a transaction that left async commit / 1PC although no
@@ -122,11 +89,7 @@ Print Assumptions C02_atomic_async_extension.
    and the stability of the store's records are proved: *)
 Theorem C02_atomic_fallback_partial : forall evs s T evs' s' k, run evs = Some s -> run_from s evs' = Some s' ->
   (forall c, kget s T k = Committed c -> kget s' T k = Committed c) /\ (kget s T k = RolledBack -> kget s' T k = RolledBack).
-Proof.
-  intros evs s T evs' s' k R R'. pose proof (run_from_kmono _ _ _ R') as KM. split; intros.
-  - eapply km_committed; eauto.
-  - eapply km_rolledback; eauto.
-Qed.
+Proof. exact C02_atomic_fallback_partial_proof. Qed.
 Print Assumptions C02_atomic_fallback_partial.
 
 (* ... and, in EVERY commit mode (fallen back or not), the owner's own commit point is closed by a definite error:
@@ -138,14 +101,7 @@ Theorem C02_fallback_owner_closed : forall evs s T, run evs = Some s -> hasm s T
   F s T FPcNeg = F s T FPcSent ->
   forall evs' s', run_from s evs' = Some s' ->
     F s' T FTold = 3 /\ forall r c ks, In (ECmReply r T c ks CmOk) (s_dlv s') -> ~ In (prim s T) ks.
-Proof.
-  intros evs s T R Hm Ht Hn evs' s' R'. destruct (inv_run evs s R T) as [G _].
-  assert (Hd : F s T FDead <> 0) by (apply (g_told_dead _ _ G); auto).
-  destruct (closed_run_from evs' s s' T (inv_run _ _ R) (pcinv_run _ _ T R) Hm Hd Hn R') as [Hm' [Ep [_ [_ [P' Z]]]]].
-  destruct (run_from_frozen _ _ _ T R') as [Fz _]. split.
-  - destruct Fz as [E _]; [rewrite Ht; discriminate | congruence].
-  - intros r c ks Hi Hp. rewrite <- Ep in Hp. apply (pc_okd _ _ P' Hm' _ _ _ Hi Hp). exact Z.
-Qed.
+Proof. exact C02_fallback_owner_closed_proof. Qed.
 Print Assumptions C02_fallback_owner_closed.
 
 (* ---- fallen back to (or never left) two-phase commit: [mixed s T] = mutations logged, some locked mutation holds
@@ -163,24 +119,13 @@ Theorem C02_atomic_fallback : forall evs s T, run evs = Some s -> mixed s T ->
      forall evs' s', run_from s evs' = Some s' -> F s' T FTold = 1 /\ kget s' T (prim s' T) = Committed c) /\
   (F s T FTold = 3 -> forall evs' s', run_from s evs' = Some s' -> no1pc s' T ->
      F s' T FTold = 3 /\ forall k c, kget s' T k <> Committed c).
-Proof.
-  intros evs s T R Mx. pose proof (full_run _ _ R) as Fs. split; [| split; [| split; [| split]]].
-  - exact (mx_one_ts s T Fs Mx).
-  - exact (mx_all_or_nothing s T Fs Mx).
-  - intros k c Hk. assert (HP : kget s T (prim s T) = Committed c).
-    { destruct Fs as [_ [_ [_ [_ [_ [_ [_ HM]]]]]]]. apply (m_one _ _ (HM T Mx) k). auto. }
-    split; auto. exact (mx_committed_keys s T Fs Mx c HP).
-  - intros Ht. destruct (mx_told_ok s T Fs Mx Ht) as [c [A [_ B]]]. exists c. auto.
-  - intros Ht evs' s' R' N'. eapply mixed_told_err; eauto.
-Qed.
+Proof. exact C02_atomic_fallback_proof. Qed.
 Print Assumptions C02_atomic_fallback.
 
 (* a locked mutation that currently holds a non-async lock makes the transaction mixed *)
 Theorem C02_fallback_when : forall evs s T k, run evs = Some s -> hasm s T -> no1pc s T ->
   In k (lm s T) -> kget s T k = Locked 0 -> mixed s T.
-Proof.
-  intros evs s T k R Hh N1 Hk El. split; auto. split; auto. exists k. split; auto. apply (l_locked _ _ (linv_run _ _ R T)). auto.
-Qed.
+Proof. exact C02_fallback_when_proof. Qed.
 Print Assumptions C02_fallback_when.
 
 (* how a transaction becomes mixed: the first prewrite that reaches a (so far unlocked) locked mutation is answered
@@ -188,12 +133,7 @@ Print Assumptions C02_fallback_when.
 Theorem C02_fallback_first_decline : forall pre s1 r T ks k s, run pre = Some s1 ->
   step s1 (EPwDeliver r T ks (PwOk 0 0)) = Some s -> In k ks -> kget s1 T k = Unlocked ->
   kget s T k = Locked 0 /\ forall evs' s', run_from s evs' = Some s' -> lamk s' T k = Some 0.
-Proof.
-  intros pre s1 r T ks k s R1 St Hk Eu. unfold step in St. destruct (stepr s1 _) as [s2 | rr] eqn:E; inversion St. subst s2.
-  destruct (pw_deliver_exact _ _ _ _ _ _ E k Hk) as [Tr _]. rewrite Eu in Tr. cbn in Tr. inversion Tr as [Ek].
-  split; auto. intros evs' s' R'. pose proof (full_run _ _ R1) as F1. pose proof (full_stepr _ _ _ F1 E) as F2.
-  eapply run_from_lam; eauto. destruct F2 as [_ [HL _]]. apply (l_locked _ _ (HL T)). auto.
-Qed.
+Proof. exact C02_fallback_first_decline_proof. Qed.
 Print Assumptions C02_fallback_first_decline.
 
 (* ---------------- C03: truthfulness of Commit's answer under faults ---------------- *)
@@ -203,18 +143,14 @@ Theorem C03_truthful : forall evs s T, run evs = Some s -> hasm s T -> classic s
      forall evs' s', run_from s evs' = Some s' -> F s' T FTold = 1 /\ kget s' T (prim s' T) = Committed c) /\
   (F s T FTold = 3 -> forall evs' s', run_from s evs' = Some s' ->
      F s' T FTold = 3 /\ forall k c, kget s' T k <> Committed c).
-Proof.
-  intros evs s T R Hm Hc. split.
-  - exact (told_ok_committed evs s T R Hm Hc).
-  - exact (told_err_never evs s T R Hm Hc).
-Qed.
+Proof. exact C03_truthful_proof. Qed.
 Print Assumptions C03_truthful.
 
 Theorem C03_truthful_onepc : forall evs s T, run evs = Some s -> onepcm s T ->
   (F s T FTold = 1 -> exists c, (forall k, In k (call s T) -> kget s T k = Committed c) /\
      forall evs' s', run_from s evs' = Some s' -> forall k, In k (call s T) -> kget s' T k = Committed c) /\
   (F s T FTold = 3 -> forall evs' s', run_from s evs' = Some s' -> F s' T FTold = 3 /\ forall k c, kget s' T k <> Committed c).
-Proof. intros evs s T R Hm. split; [exact (onepc_told_ok evs s T R Hm) | exact (onepc_told_err evs s T R Hm)]. Qed.
+Proof. exact C03_truthful_onepc_proof. Qed.
 Print Assumptions C03_truthful_onepc.
 
 Theorem C03_truthful_async : forall evs s T, run evs = Some s -> asyncm s T ->
@@ -223,7 +159,7 @@ Theorem C03_truthful_async : forall evs s T, run evs = Some s -> asyncm s T ->
      (forall k, In k (lm s T) -> (exists m, kget s T k = Locked m /\ m <= cstar s T) \/ kget s T k = Committed (cstar s T)) /\
      (forall r C ks, In (ERsSend r T C ks) (s_sent s) -> C = cstar s T /\ C <> 0)) /\
   (F s T FTold = 3 -> (forall k c, kget s T k <> Committed c) /\ (forall r C ks, In (ERsSend r T C ks) (s_sent s) -> C = 0)).
-Proof. intros evs s T R Am. split; [exact (async_told_ok evs s T R Am) | exact (async_told_err evs s T R Am)]. Qed.
+Proof. exact C03_truthful_async_proof. Qed.
 Print Assumptions C03_truthful_async.
 
 Theorem C03_truthful_fallback : forall evs s T, run evs = Some s -> mixed s T ->
@@ -232,11 +168,7 @@ Theorem C03_truthful_fallback : forall evs s T, run evs = Some s -> mixed s T ->
      forall evs' s', run_from s evs' = Some s' -> F s' T FTold = 1 /\ kget s' T (prim s' T) = Committed c) /\
   (F s T FTold = 3 -> forall evs' s', run_from s evs' = Some s' -> no1pc s' T ->
      F s' T FTold = 3 /\ forall k c, kget s' T k <> Committed c).
-Proof.
-  intros evs s T R Mx. pose proof (full_run _ _ R) as Fs. split.
-  - exact (mx_told_ok s T Fs Mx).
-  - intros Ht evs' s' R' N'. eapply mixed_told_err; eauto.
-Qed.
+Proof. exact C03_truthful_fallback_proof. Qed.
 Print Assumptions C03_truthful_fallback.
 
 Theorem C03_undetermined_only_if : forall evs s, run evs = Some s -> undetermined_only_if evs.
@@ -288,16 +220,6 @@ Proof. exact heartbeat_ttl. Qed.
 Print Assumptions C04_heartbeat_ttl.
 
 (* ---------------- non-vacuity ---------------- *)
-Definition S0 : N := 262144.   (* start ts, physical 1 ms *)
-Definition happy_prefix : list event :=
-  [ ETso S0; EBegin 1 S0; ETso (S0 + 1); ECommitCall S0 false; EMutations S0 10 [(10, OpPut); (11, OpDel)];
-    EPwSend 1 S0 10 [10] false false (S0 + 1) 0 []; EPwSend 1 S0 10 [11] false false (S0 + 1) 0 [];
-    EPwDeliver 1 S0 [11] (PwOk 0 0); EPwDeliver 1 S0 [10] (PwOk 0 0);
-    EPwReply 1 S0 [10] (PwOk 0 0); EPwReply 1 S0 [11] (PwOk 0 0); ETso (S0 + 2) ].
-Definition happy : list event :=
-  happy_prefix ++
-  [ ECmSend 1 S0 (S0 + 2) [10]; ECmDeliver 1 S0 (S0 + 2) [10] CmOk; ECmReply 1 S0 (S0 + 2) [10] CmOk; ETold S0 TOk;
-    ECmSend 1 S0 (S0 + 2) [11]; ECmDeliver 1 S0 (S0 + 2) [11] CmOk; ECmReply 1 S0 (S0 + 2) [11] CmOk ].
 
 Example happy_accepted : exists s, run happy = Some s /\ hasm s S0 /\ classic s S0 /\ F s S0 FTold = 1 /\
   kget s S0 10 = Committed (S0 + 2) /\ kget s S0 11 = Committed (S0 + 2).
@@ -344,12 +266,6 @@ Example accepted_undetermined_on_lost_reply : reject_of (happy_prefix ++
 Proof. vm_compute. reflexivity. Qed.
 
 (* async commit and 1PC: the mode hypotheses are satisfiable by accepted traces *)
-Definition async_happy : list event :=
-  [ ETso S0; EBegin 1 S0; ECommitCall S0 false; ETso (S0 + 1); EMutations S0 10 [(10, OpPut); (11, OpPut)];
-    EPwSend 1 S0 10 [10] true false (S0 + 2) 0 [11]; EPwSend 1 S0 10 [11] true false (S0 + 2) 0 [];
-    EPwDeliver 1 S0 [10] (PwOk (S0 + 3) 0); EPwDeliver 1 S0 [11] (PwOk (S0 + 4) 0);
-    EPwReply 1 S0 [10] (PwOk (S0 + 3) 0); EPwReply 1 S0 [11] (PwOk (S0 + 4) 0); ETold S0 TOk;
-    ECmSend 1 S0 (S0 + 4) [11]; ECmDeliver 1 S0 (S0 + 4) [11] CmOk ].
 Example async_happy_accepted : exists s, run async_happy = Some s /\ asyncm s S0 /\ F s S0 FTold = 1 /\
   cstar s S0 = S0 + 4 /\ kget s S0 11 = Committed (S0 + 4) /\ kget s S0 10 = Locked (S0 + 3).
 Proof.
@@ -358,10 +274,6 @@ Proof.
   unfold asyncm, hasm. split; [vm_compute; congruence |]. split; [vm_compute; congruence |]. split; [| split; vm_compute; congruence].
   intros r ks m o Hi. vm_compute in Hi. repeat (destruct Hi as [Hi | Hi]; [inversion Hi; reflexivity |]). destruct Hi.
 Qed.
-Definition onepc_happy : list event :=
-  [ ETso S0; EBegin 1 S0; ECommitCall S0 false; ETso (S0 + 1); EMutations S0 10 [(10, OpPut); (11, OpPut)];
-    EPwSend 1 S0 10 [10; 11] true true (S0 + 2) 0 [11]; EPwDeliver 1 S0 [10; 11] (PwOk 0 (S0 + 3));
-    EPwReply 1 S0 [10; 11] (PwOk 0 (S0 + 3)); ETold S0 TOk ].
 Example onepc_happy_accepted : exists s, run onepc_happy = Some s /\ onepcm s S0 /\ F s S0 FTold = 1 /\
   kget s S0 10 = Committed (S0 + 3) /\ kget s S0 11 = Committed (S0 + 3).
 Proof.
@@ -380,13 +292,6 @@ Example async_err_primary_never_sent_accepted : reject_of
     EPwDeliver 1 S0 [11] (PwOk (S0 + 4) 0); ETold S0 TErr ] = None.
 Proof. vm_compute. reflexivity. Qed.
 (* async commit + 1PC requested, the single request hit a region error, re-split: 1PC abandoned, async commit kept *)
-Definition async1pc_resplit : list event :=
-  [ ETso S0; EBegin 1 S0; ECommitCall S0 false; ETso (S0 + 1); EMutations S0 10 [(10, OpPut); (11, OpPut)];
-    EPwSend 1 S0 10 [10; 11] true true (S0 + 2) 0 [11]; EPwDeliver 1 S0 [10; 11] PwRegion; EPwReply 1 S0 [10; 11] PwRegion;
-    EPwSend 1 S0 10 [11] true false (S0 + 2) 0 []; EPwSend 1 S0 10 [10] true false (S0 + 2) 0 [11];
-    EPwDeliver 1 S0 [11] (PwOk (S0 + 3) 0); EPwReply 1 S0 [11] (PwOk (S0 + 3) 0);
-    EPwDeliver 1 S0 [10] (PwOk (S0 + 4) 0); EPwReply 1 S0 [10] (PwOk (S0 + 4) 0); ETold S0 TOk;
-    ECmSend 1 S0 (S0 + 4) [11]; ECmDeliver 1 S0 (S0 + 4) [11] CmOk ].
 Example async1pc_resplit_accepted : exists s, run async1pc_resplit = Some s /\ asyncm s S0 /\ F s S0 FTried1 <> 0 /\
   F s S0 FTold = 1 /\ cstar s S0 = S0 + 4 /\ kget s S0 11 = Committed (S0 + 4).
 Proof.
